@@ -19,7 +19,23 @@ PROP = dict(
           "function, alloc_dual_mapping; generated start staggering in PAUSE counts, up to 3 follow-up operations); every observation must equal "
           "the same operation repeated alone afterwards in the same process (coldstart-differs:<op>) and be sane (coldstart-insane:<op>: host "
           "arch known, CPU features non-empty, page size = system page size ...); the child is the same ThreadSanitizer build, a report is key "
-          "coldstart-race:<global or function>; such a case is non-trivial when at least two threads had an operation and the child delivered its verdict"),
+          "coldstart-race:<global or function>; such a case is non-trivial when at least two threads had an operation and the child delivered its verdict. "
+          "Statistics snapshots (cfg[0] = 4; a deterministic sweep of 7 worker counts x 10 allocator configurations before the generated cases plus about "
+          "8% of the generated cases, classes stats_*): 1..12 worker threads run generated scripts (5..300 rounds) that allocate and release spans of a few "
+          "fixed sizes - one pool: one size of 1/2/3/4/5 granules or two sizes; kUseMultiplePools: sizes falling into pools 0/1/2 (64/128/256-byte granularity "
+          "for a 64-byte allocator) - in matched groups or freely, with and without kDisableInitialPadding / kImmediateRelease / fill / dual mapping, while 1..4 "
+          "observer threads released by the same barrier call statistics() in a tight loop (generated count) and query() up to three spans pinned by the main "
+          "thread. The set of (allocation_count, live bytes) pairs a worker walks through is a pure function of the case; an atomic statistics() can only return "
+          "pinned + one pair per worker (the exact Minkowski sum, a bit matrix), so every returned object must satisfy: (allocation_count, used_size minus the "
+          "padding of the existing blocks) is reachable (key stat-snapshot-count-vs-used; with one span size: used_size == allocation_count * k * granularity), "
+          "no block <=> nothing reserved / no overhead / nothing used / nothing allocated, block_count <= allocation_count under kImmediateRelease, pools with a "
+          "pinned span have a block (stat-snapshot-blocks), reserved_size >= used_size and >= block_count * first block size (stat-snapshot-reserved), and "
+          "(block_count, reserved_size, overhead_size) is the sum over a set of pools of what the first block of that pool adds. What a block adds (padding granule, "
+          "reserved bytes, overhead) is measured single-threaded on a twin allocator with the same CreateParams in the same process and the formulas are validated "
+          "single-threaded before the threads start (snap-model-single-threaded). query() of a pinned or own live span must return exactly its rx/rw/size/block. "
+          "Overlap is measured: stats_snapshots_while_workers_inside_their_scripts, stats_snapshots_during_concurrent_alloc (an alloc()/release() of another "
+          "thread completed during the very statistics() call), stats_snapshots_allocation_count_differs_from_previous; such a case is non-trivial when at "
+          "least two threads executed allocator operations after the start barrier"),
     assumptions=[
         "ThreadSanitizer build (-fsanitize=thread, ASMJIT_ASSERT active); any TSan report ends the worker with exit code 97 and is reported "
         "as key 'crash' with the running case as replay and the report in <replay>.log",
@@ -36,10 +52,17 @@ PROP = dict(
         "a cold-start child is judged by its own verdict only (stdout verdict, exit code, ThreadSanitizer exit code 97 / stderr); a 150 s "
         "alarm in the child is the only clock (safety net, reported as coldstart-hang)",
         "JitAllocator::reset() is documented as not thread-safe and is never called while threads run; the known single-threaded C09 "
-        "defects are kept out of the way: the empty-block retention policy is not asserted, kDisableInitialPadding is not used and every "
+        "defects are kept out of the way (modes A/B): the empty-block retention policy is not asserted, kDisableInitialPadding is not used and every "
         "span is an even number of granules (odd pool-0/1 spans of kUseMultiplePools stay under a per-thread byte budget) so that no block "
         "can become exactly full (known finding full-block-stale-search-range would corrupt the heap)",
-        "a thread only queries / writes / shrinks / releases spans it allocated itself; dual-mapped spans are written through rw and read "
+        "statistics-snapshot cases: statistics() is documented thread-safe and returns its five numbers as one object, and the property promises the "
+        "guarantees of C09 (statistics agree with the live spans) under concurrency: the object is required to describe ONE state of the allocator, i.e. "
+        "statistics() is atomic with respect to alloc()/release() like every other entry point. Large pages are not used there (block sizes must be "
+        "reproducible); a worker holds at most L (1..6) spans, L chosen so that all spans of the case fit into the first block of every pool whatever the "
+        "fragmentation - should a pool get a second block anyway, only bounds on the padding are applied (class stats_snapshots_block_structure_other, never "
+        "seen); the numbers of rounds / observer calls are generated, so how many snapshots really overlap an alloc()/release() is up to the scheduler and "
+        "is reported, not assumed",
+        "a thread only queries / writes / shrinks / releases spans it allocated itself (observers also query the spans the main thread pins for the whole case); dual-mapped spans are written through rw and read "
         "through rx (ThreadSanitizer tracks the two views as unrelated addresses)",
         "no liveness claim (deadlock freedom is only observed through the driver's wall-clock budget)",
     ],
@@ -48,11 +71,14 @@ META = dict(
     engine="rapidcheck + std::thread + ThreadSanitizer",
     technique=("property-based concurrency testing: generated per-thread scripts run by real threads on one JitAllocator / JitRuntime or on "
                "private CodeHolders; oracles are ThreadSanitizer's happens-before race detection, a per-thread ownership model audited "
-               "at a barrier (union of the models vs. statistics, disjointness, contents), and byte equality with a single-threaded reference; "
+               "at a barrier (union of the models vs. statistics, disjointness, contents), a linearisability check of every statistics() object "
+               "against the exact set of states reachable by the generated worker scripts, and byte equality with a single-threaded reference; "
                "first use of the library by several threads at once is tested in re-executed fresh processes against a single-threaded repetition"),
     level_text=("Exploration: thousands (quick) to tens of thousands (thorough) of scripts with 2-16 threads. ThreadSanitizer reports an "
                 "unsynchronised access pair whenever both accesses occur in a run, without needing the harmful interleaving, so a removed "
-                "or narrowed lock and hidden global mutable state are found reliably (see sensitivity); nothing is claimed about "
+                "or narrowed lock and hidden global mutable state are found reliably (see sensitivity); a lock that is still taken for every access "
+                "but split into several critical sections (no race to report) is found by the statistics-snapshot cases when an alloc()/release() completes "
+                "between two of the sections, which happened in about three of four such cases in the sensitivity runs; nothing is claimed about "
                 "interleavings or code paths that were never executed concurrently."),
     level_note=("Trusts ThreadSanitizer and the harness (barriers are the only harness synchronisation, so the harness adds no "
                 "happens-before edges between the barriers). The schedule is not controlled; evidence reports measured overlap."),
